@@ -30,7 +30,7 @@ Section Reshare.
   Notation L := (RLeaf R).
   Notation evals := (evals R r0 radd rmul rsub atom catom one lin bil).
   Notation dnode := (deval_node R r0 radd rmul rsub atom catom one lin bil).
-  Definition T3 (a b c : R) : rv := RTup R [L a; L b; L c].
+  Notation T3 := (T3 R).
 
   (* environments only grow *)
   Definition mono (env env' : list rv) : Prop := forall d x, znth env d = Ok x -> znth env' d = Ok x.
